@@ -570,6 +570,7 @@ def run(ctx, rep):
     # every other client; a forked child that still owns the listener can shut it down for the parent
     K.share(ctx, rep, "c10", lambda o: o.rule == "R10.4" and "lock is released on every exit" in o.key, "R16.5", floor=4)
     K.share(ctx, rep, "c17", lambda o: o.rule == "R17.2" and "ForkingServer" in o.key, "R16.5", floor=1)
+    K.share(ctx, rep, "c05", lambda o: o.rule == "R05.4" and "Channel.recv" in o.key, "R16.5", floor=1)
     # per-client objects do not share mutable state by accident (mutable default arguments, class-level tables)
     from . import hygiene as H
     for cq_ in sorted(q for q, c_ in ctx.repo.classes.items() if q.startswith("rpyc.core.service.") or q in (
